@@ -336,7 +336,7 @@ class Ctx:
                     out.append(head + " | " + " | ".join((f"T{k}: " + "; ".join(b)).rstrip() for k, b in enumerate(nb)))
         return out
 
-    def shrink(self, prog, kind, budget=80):
+    def shrink(self, prog, kind, outcome="", budget=80):
         """greedy one-operation-at-a-time minimisation of a failing input: a smaller program is kept if the same
         oracle reports a failure of the same kind on it"""
         recheck = self._recheck.get(prog)
@@ -353,7 +353,11 @@ class Ctx:
                     f = recheck(cand)
                 except Exception:
                     continue
-                if any(k == kind for (_q, k, _o) in f):
+                # the same kind of failure with the same verdict (so that the minimised program fails for the same
+                # reason, not because deleting an operation made it meaningless)
+                v = outcome.split(" ")[0].split(":")[0]
+                if any(k == kind and (not v or o.split(" ")[0].split(":")[0] == v) for (_q, k, o) in f) \
+                        and "spawn" in cand.split("|")[1]  == ("spawn" in prog.split("|")[1]):
                     cur, improved = cand, True
                     break
         return cur if cur != prog else None
@@ -384,7 +388,7 @@ class Ctx:
             else:
                 unlisted += 1
                 if unlisted <= 5:
-                    mini = self.shrink(p, kind) if unlisted <= 2 else None
+                    mini = self.shrink(p, kind, outcome) if unlisted <= 2 else None
                     self.violation("oracle-" + kind,
                                    {"outcome": outcome, "implementation_equals_twin": p not in differing,
                                     **({"minimized_program": mini} if mini else {}),
@@ -524,4 +528,19 @@ def replay(path):
             print("  twin:", d[2][:600])
         its, done = lvlib.iterations(a)
         print("implementation result:", done, "iterations:", len(its))
+        # the reference outcomes and how the explored outcomes relate to them (when the oracle was the interleaving
+        # reference; RC11-judged properties print their own outcome format in the replay body)
+        try:
+            outs, capped, states = lvlib.run_sc([prog], 400000).get(prog, (set(), True, 0))
+            explored = set(lvlib.outcome_str(it) for it in its)
+            print(f"reference (Spec/SC.lean): {len(outs)} outcomes, {states} states" + (" (capped)" if capped else ""))
+            for o in sorted(explored - outs)[:5]:
+                print("  explored, not in the reference:", o)
+            for o in sorted(outs - explored)[:5]:
+                print("  in the reference, not explored:", o)
+        except Exception as e:          # noqa: BLE001
+            print("reference not available:", e)
+        for key in ("minimized_program",):
+            if key in body.get("detail", {}):
+                print(key + ":", body["detail"][key])
     return 0
